@@ -597,7 +597,11 @@ class MyPyAstVisitor:
                                 continue
 
                             if not isinstance(conditional_branch, mp_nodes.CallExpr | mp_nodes.MemberExpr):
-                                type_ = mypy_expression_to_sds_type(conditional_branch)
+                                try:
+                                    type_ = mypy_expression_to_sds_type(conditional_branch)
+                                except TypeError:
+                                    # The type of this expression cannot be inferred
+                                    continue
                                 if isinstance(type_, sds_types.NamedType | sds_types.TupleType):
                                     types.add(type_)
                     elif hasattr(return_stmt.expr, "node") and getattr(return_stmt.expr.node, "is_self", False):
@@ -605,7 +609,11 @@ class MyPyAstVisitor:
                         expr_type = return_stmt.expr.node.type.type
                         types.add(sds_types.NamedType(name=expr_type.name, qname=expr_type.fullname))
                     else:
-                        type_ = mypy_expression_to_sds_type(return_stmt.expr)
+                        try:
+                            type_ = mypy_expression_to_sds_type(return_stmt.expr)
+                        except TypeError:
+                            # The type of this expression cannot be inferred
+                            continue
                         if isinstance(type_, sds_types.NamedType | sds_types.TupleType):
                             types.add(type_)
 
